@@ -56,14 +56,6 @@ var c22Regexes = []string{`[a-zA-Z_][a-zA-Z_0-9]*`, `[0-9]+(\.[0-9]+)?`, `"([^"\
 	`\d+`, `(?i)kw`, `[\x00-\x1f]`, `\\`, `\.`, `\$`, `%`}
 var c22BadRegexes = []string{`[z-a]`, `a{3,1}`, `(`, `a)`, `*a`, `\p{Nope}`, `{nosuch}`, `[a`, `\x`, `a**`, `\u12`, `(?z)a`, `a{`, `{dig`, `a*`, `()`, `x{eoi}+`, `\xff`, `[^\x00-\x{10ffff}]`, `a{0}`}
 
-func contains(xs []string, x string) bool {
-	for _, y := range xs {
-		if x == y {
-			return true
-		}
-	}
-	return false
-}
 
 func (g *c22g) regex() string {
 	if g.chance(g.wild) {
